@@ -46,10 +46,12 @@ def oracle(tier, rng, seeds):
     heavy = [c for c in calls if c[0] in ('lonlat_to_cell', 'cell_to_lonlat', 'cell_to_boundary')]
     pairs = []
     for i in range(10 if tier == 'quick' else 60):
-        pairs.append((rng.choice(heavy), rng.choice(heavy)))
+        a = rng.choice(heavy)
+        pairs.append((a, rng.choice(heavy)))
+        pairs.append((a, a))
     for i in range(4 if tier == 'quick' else 30):
         pairs.append((rng.choice(calls), rng.choice(calls)))
-    f1, s1 = effects.preemption_search(rng, pairs, 40 if tier == 'quick' else 400)
+    f1, s1 = effects.preemption_search(rng, ('auto', pairs, 6 if tier == 'quick' else 60), 60 if tier == 'quick' else 600)
     for f in f1:
         fails.append(Failure(f['what'], {'kind': 'preempt', 'A': f['A'], 'B': f['B'], 'k': f['k']}))
     f2, s2 = effects.thread_soak(rng, 120 if tier == 'quick' else 1000, 8, 2 if tier == 'quick' else 4)
